@@ -106,6 +106,7 @@ PATS = {
     "tup": ("(p{i}a, p{i}b)", "(i64, i64)"), "ts1": ("N(p{i})", "N"), "refpat": ("&p{i}", "&i64"), "raw": ("r#match", "i64"),
     "at": ("p{i} @ _", "i64"), "slice": ("[p{i}a, p{i}b]", "[i64; 2]"),
 }
+RECVS = {"norecv": "", "val": "self", "mutref": "&mut self"}
 DELEG = {
     "default": "",
     "ref": "delegate_by = ref",
@@ -143,6 +144,14 @@ def enumerate_states(tier):
                 states.append(dict(key="p_%s_%s_%s" % ("_".join(w) or "none", "body" if body else "decl", d), kind="traitpat",
                                    word=list(w), body=body, deleg=d))
                 transitions += 1
+    # the same family with other receivers: none at all (an associated function), by value, `&mut self`
+    for w in [x for x in pwords if len(x) <= 1]:
+        for recv in RECVS:
+            for body in (False, True):
+                for d in DELEG:
+                    states.append(dict(key="p_%s_%s_%s_%s" % ("_".join(w) or "none", "body" if body else "decl", d, recv), kind="traitpat",
+                                       word=list(w), body=body, deleg=d, recv=recv))
+                    transitions += 1
     swords, t = common.words(list(SIGSHAPES), 3 if tier == "thorough" else 2, minlen=1)
     for w in swords:
         for container in ("mod", "impl"):
@@ -193,7 +202,9 @@ def render(s):
         params = ", ".join("%s: %s" % (PATS[p][0].format(i=i), PATS[p][1]) for i, p in enumerate(s["word"]))
         L.append("    pub struct N(pub i64);")
         L.append("    #[::entrait::entrait(%s)]" % DELEG[s["deleg"]])
-        L.append("    pub trait T { fn m(&self%s) -> i64%s }" % (", " + params if params else "", " { 0 }" if s["body"] else ";"))
+        recv = RECVS.get(s.get("recv"), "&self")
+        plist = ", ".join(x for x in (recv, params) if x)
+        L.append("    pub trait T { fn m(%s) -> i64%s%s }" % (plist, " where Self: Sized" if s.get("recv") else "", " { 0 }" if s["body"] else ";"))
     L.append("}")
     return engine.Unit(key, "\n".join(L), None, s)
 
@@ -289,7 +300,7 @@ def evaluate(states, report, tier):
             elif s["kind"] == "fnpat":
                 tags |= {"pat:" + p for p in s["word"]} | {"ctx:" + s["ctx"], "fname:" + s["fname"]}
             else:
-                tags |= {"pat:" + p for p in s["word"]} | {"deleg:" + s["deleg"], "body" if s["body"] else "decl"}
+                tags |= {"pat:" + p for p in s["word"]} | {"deleg:" + s["deleg"], "body" if s["body"] else "decl", "recv:" + s.get("recv", "ref")}
             report.violation(s["key"], tags, sig, detail, state=s, source=engine.standalone_source(u), meta=dict(mode="expand"))
 
 
